@@ -73,3 +73,7 @@ def run(ctx, rep):
     rf = rep.rule("fields", "event value = data.value, tick = data.tick; one fold per kind, datum by datum", floor=2)
     check_event_fields(ctx, rf, "chartparse.globalevents.GlobalEvent", {"value": lambda d: ("attr", d, "value"), "tick": lambda d: ("attr", d, "tick")})
     Timing(ctx).check_folds(rf)
+    rch = rep.rule("chain", "file -> lines (read().splitlines(), utf-8-sig) -> framing -> section route -> dispatcher -> builders: every link "
+                            "hands the lines on unchanged", floor=10)
+    from .chain import check_chain
+    check_chain(ctx, rch, "global", strict=True)
